@@ -156,6 +156,18 @@ class Probe:
         self.errors = []
 
 
+def plain_function(cls, name):
+    """the function object behind cls.name (unwrapping staticmethod/classmethod/property/functools wrappers), or None"""
+    obj = cls.__dict__.get(name, None)
+    if obj is None:
+        obj = getattr(cls, name, None)
+    for attr in ("__func__", "fget", "__wrapped__"):
+        inner = getattr(obj, attr, None)
+        if inner is not None:
+            obj = inner
+    return obj if hasattr(obj, "__code__") else None
+
+
 class Reach:
     """sys.monitoring LINE recorder for the anchored functions of a property: which of their lines ran.  Each line
     is reported once and then disabled, so the cost is paid once per line."""
@@ -166,9 +178,12 @@ class Reach:
         """functions: {label: function or code object}; grab them *before* monkeypatching."""
         self.codes = {}
         for label, f in functions.items():
-            code = getattr(f, "__code__", None) or getattr(getattr(f, "__func__", None), "__code__", None) or getattr(getattr(f, "fget", None), "__code__", None) or f
-            self.codes[code] = label
-        self.seen = {label: set() for label in functions}
+            code = getattr(f, "__code__", None) or getattr(getattr(f, "__func__", None), "__code__", None) or getattr(getattr(f, "fget", None), "__code__", None) or getattr(getattr(f, "__wrapped__", None), "__code__", None)
+            if code is None and hasattr(f, "co_code"):
+                code = f
+            if code is not None:
+                self.codes[code] = label
+        self.seen = {label: set() for label in self.codes.values()}
         self.active = False
 
     def __enter__(self):
